@@ -165,9 +165,13 @@ func c18LifeBody(sc *c18Life, o *c18LifeObs) func() {
 		// the statement: "keeps running until the last user has shut down and then stops")
 		hold := len(sc.Users) > 1 && !sc.NoHold
 		if hold {
-			if err := ml.Start(context.Background(), nil); err != nil {
+			// (component.Start's contract: the context "will be cancelled soon" after Start returns - every Start below gets a
+			// context that is cancelled as soon as it has returned; the limiter's life does not depend on it)
+			sctx, scancel := context.WithCancel(context.Background())
+			if err := ml.Start(sctx, nil); err != nil {
 				panic(err)
 			}
+			scancel()
 			o.started++
 		}
 		if sc.Refusing {
@@ -191,9 +195,11 @@ func c18LifeBody(sc *c18Life, o *c18LifeObs) func() {
 				mine := 0
 				for _, op := range seq {
 					if op == "start" {
-						if err := ml.Start(context.Background(), nil); err != nil {
+						sctx, scancel := context.WithCancel(context.Background())
+						if err := ml.Start(sctx, nil); err != nil {
 							o.errs = append(o.errs, "Start: "+err.Error())
 						}
+						scancel()
 						mine++
 						o.started++
 						stillRefusing("a user's Start")
